@@ -950,3 +950,52 @@ Proof.
   exists t1, e1, r1, o1. split. reflexivity. split. apply close_iff. exact H1.
   repeat split; auto.
 Qed.
+
+(* ------------------------------------------------------------------------------------------------ *)
+(* SUTRA surface plant *)
+
+Lemma every_other_nth : forall t l, nth t (every_other l) 0 = nth (2 * t) l 0.
+Proof.
+  induction t as [|t IH]; intros [|x [|y r]]; cbn [every_other]; try reflexivity.
+  - cbn. destruct t; reflexivity.
+  - replace (2 * S t)%nat with (S (S (2 * t))) by lia. cbn [nth]. apply IH.
+Qed.
+
+Lemma every_other_length : forall n l, (length l <= n)%nat -> length (every_other l) = ((length l + 1) / 2)%nat.
+Proof.
+  induction n as [|n IH]; intros [|x [|y r]] H; cbn [every_other length] in *; try reflexivity; try lia.
+  rewrite IH by lia. replace (S (S (length r)) + 1)%nat with (length r + 1 + 1 * 2)%nat by lia.
+  rewrite Nat.div_add by lia. lia.
+Qed.
+
+(* one step: the simulated heat is split into an injected (<= 0) and a produced (>= 0) part, auxiliary heat fills the gap
+   to the target, and the total supply meets the target *)
+Theorem sutra_step dt target sim : 0 < dt ->
+  sutra_injected dt sim + sutra_produced dt sim == sim / dt / 1000 /\
+  sutra_total dt target sim == sutra_produced dt sim + sutra_aux dt target sim /\
+  sutra_injected dt sim <= 0 /\ 0 <= sutra_produced dt sim /\ 0 <= sutra_aux dt target sim /\
+  target / dt / 1000 <= sutra_total dt target sim /\
+  sutra_total dt target sim == Qmax (Qmax sim target) 0 / dt / 1000 + (if Qltb sim 0 then (- sim) / dt / 1000 else 0) * (if Qltb (target - sim) 0 then 0 else 1).
+Proof.
+  intros Hd. unfold sutra_total, sutra_injected, sutra_produced, sutra_aux.
+  assert (Hk : forall x, 0 <= x -> 0 <= x / dt / 1000).
+  { intros x Hx. apply Qle_shift_div_l. reflexivity. rewrite Qmult_0_l. apply Qle_shift_div_l. exact Hd. lra. }
+  assert (Hm : forall x y, x <= y -> x / dt / 1000 <= y / dt / 1000).
+  { intros x y Hxy. assert (0 <= (y - x) / dt / 1000) by (apply Hk; lra).
+    assert (E : (y - x) / dt / 1000 == y / dt / 1000 - x / dt / 1000) by (field; lra). lra. }
+  destruct (Qltb_spec 0 sim) as [H1|H1]; destruct (Qltb_spec sim 0) as [H2|H2]; try lra;
+    destruct (Qltb_spec (target - sim) 0) as [H3|H3].
+  all: repeat split; try reflexivity; try (field; lra); try (apply Hk; lra);
+       try (assert (E0 : 0 / dt / 1000 == 0) by (field; lra); rewrite ?E0).
+  all: try lra.
+  all: try (assert (Ex := Hm sim 0 ltac:(lra)); assert (E0 : 0 / dt / 1000 == 0) by (field; lra); lra).
+  all: try (assert (Ex := Hm target sim ltac:(lra)); lra).
+  all: try (assert (Ex := Hm 0 (target - sim) ltac:(lra));
+            assert (E1 : (target - sim) / dt / 1000 == target / dt / 1000 - sim / dt / 1000) by (field; lra);
+            assert (E0 : 0 / dt / 1000 == 0) by (field; lra);
+            assert (Ey := Hm sim 0 ltac:(lra)); try lra).
+  all: try (rewrite Q.max_l by (apply Q.max_le_iff; left; lra); rewrite Q.max_l by lra; field; lra).
+  all: try (rewrite Q.max_l by (apply Q.max_le_iff; right; lra); rewrite Q.max_r by lra; field; lra).
+  all: try (rewrite (Q.max_r sim target) by lra; destruct (Qlt_le_dec target 0);
+            [rewrite Q.max_r by lra | rewrite Q.max_l by lra]; field; lra).
+Qed.
